@@ -102,13 +102,13 @@ CHECKS["C05"] = dict(
     design="DESIGN.md §5 C05")
 
 CHECKS["C17"] = dict(
-    text="spec/Bindgen.tla enumerates API models (objects of three traits over Box/Mut/Ref x no/Arc context, groups with clashing function names, tool configurations incl. default container/context and function prefix, foreign declarations, context-generic structures) and defines the lifecycle of one wrapper invocation as a C caller observes it. Each selected model is rendered into a cbindgen-shaped C header, processed by the real cglue-bindgen built from /repo (fake cbindgen on PATH), compiled with a generated driver whose mock vtables and mock box/arc functions log every event, and the concatenated event log is validated by TLC (Trace_Bindgen): the wrapper of every vtable entry must reach exactly that entry of that object with &container first and its own arguments unchanged, return the entry's result, and consuming wrappers / drop helpers must clone the context before the call and release instance and context exactly once (GuardAlive invariant). Entries without a callable wrapper are violations.",
-    note="Trusted: TLC, tools/cbgen.py (synthetic headers: cbindgen is not installed), the mock callee. C mode only. Found and fixed F7 (known_findings.json).",
+    text="spec/Bindgen.tla enumerates API models (objects of three traits over Box/Mut/Ref x no/Arc context, groups with clashing function names, tool configurations incl. default container/context and function prefix, foreign declarations, context-generic structures) and defines the lifecycle of one wrapper invocation as a C or C++ caller observes it. Each selected model is rendered into a cbindgen-shaped C header, processed by the real cglue-bindgen built from /repo (fake cbindgen on PATH), compiled with a generated driver whose mock vtables and mock box/arc functions log every event, and the concatenated event log is validated by TLC (Trace_Bindgen): the wrapper of every vtable entry must reach exactly that entry of that object with &container first and its own arguments unchanged, return the entry's result, and consuming wrappers / drop helpers must clone the context before the call and release instance and context exactly once (GuardAlive invariant). Entries without a callable wrapper are violations.",
+    note="Trusted: TLC, tools/cbgen.py (synthetic headers: cbindgen is not installed), the mock callee. C and C++ generators (C++ headers by tools/cbgen_cpp.py; in C++ the destructor is the drop helper). Found and fixed F7 and F5 (known_findings.json).",
     technique="TLA+ model space enumerated by TLC; real tool run on rendered headers; mock-vtable execution traces validated by TLC",
     design="DESIGN.md §5 C17", category="model_checking")
 CHECKS["C18"] = dict(
-    text="Same model space and tool run as C17. For every selected model the processed header must be accepted by gcc and clang (-std=c99 -fsyntax-only), be byte-identical across repeated fresh-process runs (5 quick / 30 thorough), and still contain the declarations that do not belong to CGlue constructs (incl. decoys named like CGlue patterns) unmodified and in order; argument-splitting cases check that everything after `--` except the output path reaches cbindgen and that the processed header lands in the output path.",
-    note="Trusted: tools/cbgen.py (synthetic headers), gcc/clang. C mode only; the spec contributes the model space. Found and fixed F6 (known_findings.json).",
+    text="Same model space and tool run as C17. For every selected model the processed header must be accepted by gcc and clang (-std=c99 -fsyntax-only; g++ and clang++ -std=c++11 for the C++ header of the same model), be byte-identical across repeated fresh-process runs (5 quick / 30 thorough), and still contain the declarations that do not belong to CGlue constructs (incl. decoys named like CGlue patterns) unmodified and in order; argument-splitting cases check that everything after `--` except the output path reaches cbindgen and that the processed header lands in the output path.",
+    note="Trusted: tools/cbgen.py (synthetic headers), gcc/clang/g++/clang++. C and C++ generators; the spec contributes the model space. Found and fixed F6 (known_findings.json).",
     technique="TLA+ model space enumerated by TLC; real tool run on rendered headers judged by C compilers, repeated-run hashing and declaration diff",
     design="DESIGN.md §5 C18", category="model_checking")
 
